@@ -68,3 +68,25 @@ def coq_dist(d: dict) -> str:
 
 def coq_dists(ds: dict) -> str:
     return lst(tup(s(t), coq_dist(d)) for t, d in ds.items())
+
+
+def coq_uni(case: dict) -> str:
+    """uni record from a case with graph, params, mods, dists, max_time.
+    Frozen distributions are normalised like Distribution.__init__ does."""
+    ds = []
+    for t, d in case.get("dists", {}).items():
+        if "frozen" in d:
+            ds.append(tup(s(t), f"(Frozen (normalize {lst(q(w) for w in d['frozen'])}))"))
+        else:
+            ds.append(tup(s(t), coq_dist(d)))
+    return ("{| u_graph := " + coq_graph(case["graph"], case.get("params")) + "; u_mods := " + coq_mods(case.get("mods", []))
+            + "; u_dists := " + lst(ds) + "; u_maxt := " + nat(case.get("max_time", 10)) + " |}")
+
+
+def coq_patient(p: dict, side: str, tmap) -> str:
+    """patient record for one side; tmap maps the raw T-stage to the model's T-stage name"""
+    diag = {}
+    for m, sides in p["find"].items():
+        if side in sides:
+            diag[m] = sides[side]
+    return "{| p_tstage := " + s(str(tmap(p["t"]))) + "; p_find := " + coq_diagnosis(diag) + " |}"
